@@ -183,6 +183,12 @@ class Env:
                 self.alias[name] = v
             elif inline_scalars and _is_pure_arith(v) and not isinstance(v, (ast.List, ast.Dict, ast.Tuple, ast.Set, ast.Constant)):
                 self.alias[name] = v
+        # tuple aliasing `F, G = self.fine, self.coarse`
+        for x in walk_no_nested(fn):
+            if isinstance(x, ast.Assign) and len(x.targets) == 1 and isinstance(x.targets[0], ast.Tuple) and isinstance(x.value, ast.Tuple) and len(x.targets[0].elts) == len(x.value.elts):
+                for t, v in zip(x.targets[0].elts, x.value.elts):
+                    if isinstance(t, ast.Name) and len(asg.get(t.id, [])) == 1 and t.id not in params and _is_chain(v):
+                        self.alias[t.id] = v
         # resolve aliases of aliases (bounded)
         for _ in range(4):
             changed = False
